@@ -64,6 +64,10 @@ fn main() {
                 run += 1;
             }
         }
+        Some("cc") => {
+            std::panic::set_hook(Box::new(|_| {}));
+            qv_core::cc::run(&args[2], &args[3]);
+        }
         _ => {
             eprintln!("usage: qv run <scripts.ndjson> <outdir> --proj a,b [--probe N] [--first-run K]");
             std::process::exit(2);
